@@ -81,12 +81,15 @@ async fn scenario(ctx: &mut Ctx, len: u64) {
     let mut live_t: Vec<usize> = Vec::new();
     let mut live_p: Vec<(usize, usize)> = Vec::new(); // (tenant, pipe)
     ctx.directive("new");
-    for _ in 0..len {
+    let mut force_deploy: Option<usize> = None;
+    for _ in 0..len + 1 {
         let routes = varpulis_cli::api::api_routes(mgr.clone(), Some(ADMIN.to_string()));
         store.limit.store(u64::MAX, Ordering::SeqCst);
         let crash: Option<u64> = if ctx.rng.chance(2, 5) { Some(ctx.rng.below(3)) } else { None };
         if let Some(n) = crash { store.limit.store(store.writes.load(Ordering::SeqCst) + n, Ordering::SeqCst); }
-        let r = ctx.rng.below(100);
+        // after a reload that the engine refused, the next operation is an acknowledged deploy on the same
+        // tenant: it persists the tenant, so a refused source that leaked into the pipeline becomes visible
+        let r = if force_deploy.is_some() { 30 } else { ctx.rng.below(100) };
         let mut opline: String;
         let status: u16;
         if live_t.is_empty() || r < 18 {
@@ -110,9 +113,10 @@ async fn scenario(ctx: &mut Ctx, len: u64) {
             opline = format!("remove {}", ti);
             ctx.count("op:remove-tenant");
         } else if r < 58 {
-            let ti = *ctx.rng.pick(&live_t);
+            let forced = force_deploy.take();
+            let ti = match forced { Some(t) if live_t.contains(&t) => t, _ => *ctx.rng.pick(&live_t) };
             let name = *ctx.rng.pick(NAMES_POOL);
-            let bad = ctx.rng.chance(1, 6);
+            let bad = forced.is_none() && ctx.rng.chance(1, 6);
             let src = if bad { if ctx.rng.chance(1, 2) { BAD_SRC } else { REJ_SRC } } else { *ctx.rng.pick(SRC_POOL) };
             let resp = warp::test::request().method("POST").path("/api/v1/pipelines").header("x-api-key", w.tenants[ti].1.as_str())
                 .json(&serde_json::json!({"name": name, "source": src})).reply(&routes).await;
@@ -143,6 +147,7 @@ async fn scenario(ctx: &mut Ctx, len: u64) {
                 .json(&serde_json::json!({"source": src})).reply(&routes).await;
             status = resp.status().as_u16();
             opline = format!("reload {} {} {}", ti, pi, code(SRC_POOL, src));
+            if src == REJ_SRC && crash.is_none() { force_deploy = Some(ti); }
             ctx.count(if bad { "op:reload-invalid-source" } else { "op:reload" });
         } else {
             continue;
